@@ -496,6 +496,10 @@ def _postfix_start(toks, match, i):
         if t.kind == 'punct' and t.text in (')', ']'):
             j = match[j] - 1
             continue
+        if t.kind == 'punct' and t.text == '}':
+            # a block expression is a primary expression: it starts the chain
+            j = match[j] - 1
+            break
         if t.kind == 'ident' and t.text not in ('let', 'return', 'match', 'if', 'in', 'else', 'mut'):
             j -= 1
             continue
@@ -509,17 +513,17 @@ def _postfix_start(toks, match, i):
     return j + 1
 
 
-def rule_option_inspect(text, dropped):
-    """`RECV.inspect(|NAME| BODY)` on an Option  ->  `{ let verif_inspected = RECV; if let Some(NAME) = verif_inspected.as_ref() { BODY; } verif_inspected }`"""
+def _closure_method_rewrite(text, dropped, method, build, rule_name, what):
+    """rewrite every `RECV.<method>(|NAME| BODY)` (single closure parameter, identifier or `_`) with build(recv, name, body)."""
     n = 0
     while True:
         if n > 20:
-            raise SliceError('option-inspect: too many rewrites')
+            raise SliceError(f'{rule_name}: too many rewrites')
         toks, match = _stmt_tokens(text)
         target = None
         for i in range(len(toks) - 5):
-            if (toks[i].text == '.' and toks[i + 1].kind == 'ident' and toks[i + 1].text == 'inspect' and toks[i + 2].text == '('
-                    and toks[i + 3].text == '|' and toks[i + 4].kind == 'ident' and toks[i + 5].text == '|'):
+            if (toks[i].text == '.' and toks[i + 1].kind == 'ident' and toks[i + 1].text == method and toks[i + 2].text == '('
+                    and toks[i + 3].text == '|' and (toks[i + 4].kind == 'ident' or toks[i + 4].text == '_') and toks[i + 5].text == '|'):
                 target = i
                 break
         if target is None:
@@ -530,17 +534,41 @@ def rule_option_inspect(text, dropped):
         recv = text[toks[r0].s:toks[i].s]
         name = toks[i + 4].text
         body = text[toks[i + 5].e:toks[close].s]
-        new = f'{{ let verif_inspected = {recv}; if let Some({name}) = verif_inspected.as_ref() {{ {body}; }} verif_inspected }}'
+        new = build(recv, name, body)
         old = text[toks[r0].s:toks[close].e]
         d = old.count('\n') - new.count('\n')
         if d < 0:
-            raise SliceError('option-inspect would add lines')
+            raise SliceError(f'{rule_name} would add lines')
         text = text[:toks[r0].s] + new + '\n' * d + text[toks[close].e:]
         n += 1
-    if n == 0:
-        raise SliceError('rule option-inspect did not apply')
-    dropped.append(('option-inspect', f'{n}x Option::inspect(closure) written as if-let on the same value'))
+    if n:
+        # soft rule: the shape it rewrites may legitimately be absent
+        dropped.append((rule_name, f'{n}x {what}'))
     return text
+
+
+def rule_option_inspect(text, dropped):
+    """`RECV.inspect(|NAME| BODY)` on an Option  ->  `{ let verif_inspected = RECV; if let Some(NAME) = verif_inspected.as_ref() { BODY; } verif_inspected }`"""
+    return _closure_method_rewrite(
+        text, dropped, 'inspect',
+        lambda recv, name, body: f'{{ let verif_inspected = {recv}; if let Some({name}) = verif_inspected.as_ref() {{ {body}; }} verif_inspected }}',
+        'option-inspect', 'Option::inspect(closure) written as if-let on the same value')
+
+
+def rule_result_inspect(text, dropped):
+    """`RECV.inspect(|NAME| BODY)` on a Result  ->  `{ let verif_inspected = RECV; if let Ok(NAME) = verif_inspected.as_ref() { BODY; } verif_inspected }`"""
+    return _closure_method_rewrite(
+        text, dropped, 'inspect',
+        lambda recv, name, body: f'{{ let verif_inspected = {recv}; if let Ok({name}) = verif_inspected.as_ref() {{ {body}; }} verif_inspected }}',
+        'result-inspect', 'Result::inspect(closure) written as if-let on the same value')
+
+
+def rule_option_map(text, dropped):
+    """`RECV.map(|NAME| BODY)` on an Option  ->  `match RECV { Some(NAME) => Some(BODY), None => None }`"""
+    return _closure_method_rewrite(
+        text, dropped, 'map',
+        lambda recv, name, body: f'(match {recv} {{ Some({name}) => Some({body}), None => None }})',
+        'option-map', 'Option::map(closure) written as a match')
 
 
 def rule_lock_scope(text, dropped):
@@ -598,9 +626,8 @@ def rule_lock_scope(text, dropped):
             raise SliceError('lock-scope would add lines')
         text = text[:toks[r0].s] + new + '\n' * d + text[toks[call_close].e:]
         n += 1
-    if n == 0:
-        raise SliceError('rule lock-scope did not apply')
-    dropped.append(('lock-scope', f'{n} lock guard scopes made explicit (guard binding + ghost counter verif_locks)'))
+    if n:
+        dropped.append(('lock-scope', f'{n} lock guard scopes made explicit (guard binding + ghost counter verif_locks)'))
     return text
 
 
@@ -625,6 +652,8 @@ RULES = {
     'chunks-enumerate': rule_chunks_enumerate,
     'lock-scope': rule_lock_scope,
     'option-inspect': rule_option_inspect,
+    'result-inspect': rule_result_inspect,
+    'option-map': rule_option_map,
 }
 
 
@@ -675,9 +704,14 @@ def parse_target(rest):
     # path may itself contain `::`? we use '/' between segments, so join back
     kv = {}
     subs = []
+    presubs = []
     for k, v in KV.findall(tail):
         if k == 'sub':
             subs.append('sub:' + v)
+            continue
+        if k == 'presub':
+            # like sub, applied BEFORE the named rules (when a rule needs the shape the substitution produces)
+            presubs.append('sub:' + v)
             continue
         if k == 'subopt':
             # like sub, but allowed to match nothing (the statement it abstracts may legitimately be absent)
@@ -686,7 +720,7 @@ def parse_target(rest):
         if len(v) >= 2 and v[0] == '/' and v[-1] == '/':
             v = v[1:-1].replace('\\/', '/')
         kv[k] = v
-    kv['rules'] = [r for r in kv.get('rules', '').split(',') if r] + subs
+    kv['rules'] = presubs + [r for r in kv.get('rules', '').split(',') if r] + subs
     return file.strip(), path.strip(), kv
 
 
